@@ -337,14 +337,16 @@ def fromInt (p : Nat) (a : Int) : Poly :=
   else digits p a.natAbs
 
 /-- one pass of the `while True` loop gfpx.py:497-506 on the integer `a`;
-`fuel` bounds the number of passes, `none` = fuel exhausted -/
+`fuel` bounds the number of passes, `none` = fuel exhausted.  Multiples of `p` (polynomials divisible by X)
+are skipped except `p` itself (= X); a non-monic candidate jumps to `p^len - 1`, so that the next pass
+tests `p^len` (= X for len = 1) -/
 def nextIrrLoop (p : Nat) : Nat → Nat → Option Poly
   | 0, _ => none
   | f + 1, a =>
     let a := a + 1
-    let a := if a % p = 0 then a + 1 else a
+    let a := if a % p = 0 ∧ a ≠ p then a + 1 else a
     let c := digits p a
-    if c.getLastD 0 ≠ 1 then nextIrrLoop p f (p ^ c.length)
+    if c.getLastD 0 ≠ 1 then nextIrrLoop p f (p ^ c.length - 1)
     else if isIrreducible p c then some c
     else nextIrrLoop p f a
 
